@@ -476,8 +476,8 @@ class ConnectedRemotePeer(RemotePeer):
                         self.host, coinstate_prior.head().height, human(block_hash), str(e)))
                 return
 
-            self.local_peer.disk_interface.save_block(block)
             coinstate_changed = coinstate_prior.add_block_no_validation(block)
+            self.local_peer.disk_interface.save_block(block)
 
             if header.in_response_to == 0 or block.height % IBD_VALIDATION_SKIP == 0:
                 # Validation is very slow, and we don't have to validate every block in a blockchain, so
